@@ -26,7 +26,10 @@ RULE = (
     "every name n followed by calls by name and alias; every public symbol of "
     "every bundled module via `require M; M->sym(args)` and via `unqualified`; "
     "about 40 syntactic ways of defining / assigning / shadowing the secure "
-    "flag each followed by binding attempts; Hypothesis-generated "
+    "flag each followed by binding attempts; every one- and two-step "
+    "sequence of plain, destructuring and compound (+= -= *= /= %=) "
+    "assignments to the flag with ten operand values, at top level and "
+    "inside functions, followed by binding attempts; Hypothesis-generated "
     "compositions of these; then a reachability walk over all environments, "
     "closures, objects and module environments. Oracle: no forbidden event, "
     "canary unchanged, no function of a class in D (and no `run`) reachable, "
@@ -463,6 +466,38 @@ def flag_programs():
             yield ("wrap:" + w[:40], w.replace("{B}", B))
 
 
+ASSIGN_OPS = ["+=", "-=", "*=", "/=", "%=", "="]
+ASSIGN_OPERANDS = ["''", "'x'", "0", "1", "-1", "2.5", "NULL", "[]", "FALSE",
+                   "TRUE"]
+ASSIGN_TARGETS = ["checkerlang_secure_mode {op} {v}",
+                  "[checkerlang_secure_mode] {op} [{v}]"]
+
+
+def assign_steps():
+    for op in ASSIGN_OPS:
+        for v in ASSIGN_OPERANDS:
+            yield f"checkerlang_secure_mode {op} {v}"
+    for v in ("FALSE", "''", "0"):
+        yield f"[checkerlang_secure_mode] = [{v}]"
+        yield f"def g() checkerlang_secure_mode *= {v}; g()"
+        yield f"(fn() checkerlang_secure_mode += {v})()"
+
+
+def assign_programs():
+    """Every one- and two-step sequence of (compound) assignments to the
+    flag: a step that leaves a truthy non-boolean in the flag can enable a
+    second step that makes it falsy."""
+    B = (f"{guarded('bind_native(' + repr('file_input') + ')')}; "
+         f"{calls('file_input')}; {guarded('bind_native(' + repr('make_dir') + ')')}; "
+         f"{calls('make_dir')}")
+    steps = list(assign_steps())
+    for a in steps:
+        yield ("assign1:" + a[:40], f"{guarded(a)}; {B}")
+    for a in steps:
+        for b in steps:
+            yield ("assign2", f"{guarded(a)}; {guarded(b)}; {B}")
+
+
 def module_programs(legacy):
     from ckl.interpreter import Interpreter
     it = Interpreter(False, True)
@@ -535,6 +570,13 @@ def part_flag(part, legacy, shard, nshards):
     part.exhaustive = True
 
 
+def part_assign(part, legacy, shard, nshards):
+    progs = [p for i, p in enumerate(assign_programs())
+             if i % nshards == shard]
+    _run_list(part, progs, legacy, teeth_every=97)
+    part.exhaustive = True
+
+
 def part_modules(part, legacy, shard, nshards):
     progs = [p for i, p in enumerate(module_programs(legacy))
              if i % nshards == shard]
@@ -597,6 +639,9 @@ def parts(tier, seed):
         ps += [(f"flag-{tag}{i}", part_flag,
                 {"legacy": legacy, "shard": i, "nshards": 2})
                for i in range(2)]
+        ps += [(f"assign-{tag}{i}", part_assign,
+                {"legacy": legacy, "shard": i, "nshards": 6})
+               for i in range(6)]
         ps += [(f"modules-{tag}{i}", part_modules,
                 {"legacy": legacy, "shard": i, "nshards": 3})
                for i in range(3)]
